@@ -2,6 +2,12 @@
 
 Alphabet : every source file rule `<path> ...r(PU|U)x,` without target (independent tokenizer) x
            every --full configuration (thorough: 90 = 5 dist x ABI x version x mode; quick: 10)
+Generated: one synthetic profile (planted in the harness' snapshot of the source tree, built by the real pipeline next
+           to the shipped ones) with every rule shape {rPUx, rUx} x {no qualifier, owner, audit} x {blank, blanks, tab}
+           x {nothing, comment, inline directive naming every distribution, trailing blanks, trailing tab} x {profile,
+           sub-profile} plus other path shapes (quoted with a blank, alternation, character class, glob): each
+           must come out of every full build as a profile-only transition, and keep its fallback in the normal build
+           (control: the harness found the rule).
 Oracle   : the same rule (same file, same index in the file-rule sequence) of the full build has an exec
            mode without u/U that still has r and p/P; the matching normal build is the control that the
            harness located the right rule (there the mode is still PUx/Ux, upper or lower case).
@@ -103,23 +109,77 @@ def check_pair(ex, S, cfgF, treeN, treeF, fnd, ev, stats):
                        {'config': cfgF._asdict(), 'file': f, 'source_line': lineno, 'built_rule': RF[idx][4]})
 
 
+GEN_FILE = 'apparmor.d/groups/apps/verif-c17'
+
+
+def generated_profile():
+    """(text, [(path token, perms, description)])"""
+    shapes = []
+    body = {0: [], 1: []}
+    n = 0
+    for depth in (0, 1):
+        for perms in ('rPUx', 'rUx'):
+            for qual in ('', 'owner ', 'audit '):
+                for sep in (' ', '      ', '\t'):
+                    for trail in ('', '  # a comment', ' #aa:only arch debian ubuntu opensuse whonix', '   ', '\t'):
+                        n += 1
+                        path = '@{bin}/verif-g%d' % n
+                        body[depth].append('%s%s%s%s,%s' % (qual, path, sep, perms, trail))
+                        shapes.append((path, perms, 'depth=%d qual=%r sep=%r trail=%r' % (depth, qual, sep, trail)))
+    for path in ('"/opt/verif a b/x"', '@{bin}/verif-{a,b}', '/verif/x[0-9]*', '@{lib}/verif/**'):
+        for perms in ('rPUx', 'rUx'):
+            q = path.replace('verif', 'verif-' + perms[1:-1].lower())      # one rule per path
+            body[0].append('%s %s,' % (q, perms))
+            shapes.append((q, perms, 'path shape'))
+    t = 'abi <abi/4.0>,\n\ninclude <tunables/global>\n\n@{exec_path} = @{bin}/verif-c17\nprofile verif-c17 @{exec_path} {\n  include <abstractions/base>\n\n  @{exec_path} mr,\n\n'
+    t += ''.join('  ' + l + '\n' for l in body[0])
+    t += '\n  profile sub {\n    include <abstractions/base>\n\n' + ''.join('    ' + l + '\n' for l in body[1]) + '\n    include if exists <local/verif-c17_sub>\n  }\n'
+    t += '\n  include if exists <local/verif-c17>\n}\n'
+    return t, shapes
+
+
+def check_generated(ex, cfgF, treeN, treeF, shapes, fnd, ev, stats):
+    name = 'apparmor.d/verif-c17'
+    if name not in treeF or name not in treeN:
+        fnd.report('generated-profile-not-built', '%s: the synthetic profile is missing from the build' % cfgx.tag(cfgF), {'config': cfgF._asdict()}); return
+    RN = {}; RF = {}
+    for R, tree in ((RN, treeN), (RF, treeF)):
+        for x in file_rules(ex.text(tree[name])):
+            R.setdefault(x[0], []).append(x)
+    for path, perms, desc in shapes:
+        hn = [x for x in RN.get(path, []) if x[1].lower() == perms.lower()]
+        if len(hn) != 1:
+            raise SystemExit('HARNESS ERROR: generated rule %s %s not found once in the normal build (%s): %s' % (path, perms, desc, RN.get(path)))
+        hf = RF.get(path, [])
+        ev.add(transitions=1); stats['generated_checked'] += 1
+        ok = len(hf) == 1
+        if ok:
+            m = scan.EXEC_RE.findall(hf[0][1])
+            ok = len(m) == 1 and 'u' not in m[0].lower() and 'p' in m[0].lower() and 'r' in hf[0][1].lower() and hf[0][2] is None
+        if not ok:
+            fnd.report('fallback-kept generated perms=%s shape=%s' % (perms, desc), 'full build %s builds the generated rule `%s %s,` (%s) as %s' % (
+                cfgx.tag(cfgF), path, perms, desc, [x[4] for x in hf]), {'config': cfgF._asdict(), 'file': 'verif-c17', 'rule': '%s %s,' % (path, perms), 'shape': desc})
+
+
 def run(tier):
     ev = C.Evidence(PROP, tier); fnd = C.Findings(PROP)
     S = source_rules()
+    gen_text, shapes = generated_profile()
     if tier == 'thorough':
         fulls = [c for c in cfgx.all_configs() if c.full]
     else:
         fulls = [cfgx.Cfg(d, a, v, 'complain', True) for d in cfgx.DISTS for a, v in ((4, '4.1'), (3, '3.0'))]
-    ex = cfgx.Explorer()
+    ex = cfgx.Explorer(extra_src={GEN_FILE: gen_text})
     try:
         normals = sorted({c._replace(full=False) for c in fulls})
         trees = ex.build_all(fulls + normals)
     finally:
         ex.close()
-    stats = dict(file_not_built=0, filtered_for_target=0, aligned_by_index=0, aligned_by_path=0, bad=0)
+    stats = dict(file_not_built=0, filtered_for_target=0, aligned_by_index=0, aligned_by_path=0, bad=0, generated_checked=0)
     for c in fulls:
         check_pair(ex, S, c, trees[c._replace(full=False)], trees[c], fnd, ev, stats)
-    ev.add(states=len(fulls) + len(normals), source_rules=len(S), configurations=len(fulls), **stats)
+        check_generated(ex, c, trees[c._replace(full=False)], trees[c], shapes, fnd, ev, stats)
+    ev.add(states=len(fulls) + len(normals), source_rules=len(S), generated_rule_shapes=len(shapes), configurations=len(fulls), **stats)
     ev.add(traces_validated_against_impl=ev.cov['transitions'])
     ev.add(rule='state = one build tree of the real prebuild; transition = one (source rule, full configuration) pair looked up in the built text')
     ev.assume('rules are read with the harness tokenizer (engine/scan.py); a rule a filter directive removes for a target is skipped, counted in filtered_for_target',
